@@ -642,11 +642,54 @@ func ruleNatKey(c *Ctx, a *udpAnchors) {
 	n := 0
 	seen := map[*ssa.Function]bool{}
 	var fns []*ssa.Function
-	for _, g := range append(eng.Family(m.add), m.assocGo...) {
+	isAssocGo := map[*ssa.Function]bool{}
+	for _, g := range m.assocGo {
+		isAssocGo[g] = true
+	}
+	for _, g := range eng.Family(m.add) {
 		if !seen[g] {
 			seen[g] = true
 			fns = append(fns, g)
 		}
+	}
+	for _, ag := range m.assocGo {
+		for _, g := range c.NewRegion(ag, 2, m.stopFn(c)).Fns {
+			if !seen[g] {
+				seen[g] = true
+				fns = append(fns, g)
+			}
+		}
+	}
+	// addParam: x is Add's client-address parameter, directly or as the argument bound to a parameter of the goroutine Add starts
+	addParam := func(x ssa.Value) bool {
+		pa, isP := x.(*ssa.Parameter)
+		if !isP || pa.Type().String() != "net.Addr" {
+			return false
+		}
+		if eng.Root(pa.Parent()) == m.add {
+			return true
+		}
+		if !isAssocGo[pa.Parent()] {
+			return false
+		}
+		idx := -1
+		for i, q := range pa.Parent().Params {
+			if q == pa {
+				idx = i
+			}
+		}
+		ok := false
+		for _, gs := range eng.Calls(m.add) {
+			gg, isGo := gs.(*ssa.Go)
+			if !isGo || gg.Call.StaticCallee() != pa.Parent() || idx < 0 || idx >= len(gg.Call.Args) {
+				continue
+			}
+			ok, _ = p.AllFrom(gg.Call.Args[idx], eng.Plain, func(v ssa.Value) bool {
+				q, isQ := v.(*ssa.Parameter)
+				return isQ && q.Parent() == m.add && q.Type().String() == "net.Addr"
+			})
+		}
+		return ok
 	}
 	for _, g := range fns {
 		for _, cl := range eng.Calls(g) {
@@ -656,12 +699,7 @@ func ruleNatKey(c *Ctx, a *udpAnchors) {
 			}
 			n++
 			x, ok := addrOf(eng.Arg(&call.Call, 0))
-			good := false
-			if ok {
-				if pa, isP := x.(*ssa.Parameter); isP && (eng.Root(pa.Parent()) == m.add || pa.Parent() == g) && pa.Type().String() == "net.Addr" {
-					good = true
-				}
-			}
+			good := ok && addParam(x)
 			c.CheckAt("NATKEY", short(g)+":table-key-is-String()-of-Add's-client-address", call, good, "the table key used for insert/delete is not String() of Add's client address parameter")
 		}
 	}
